@@ -117,7 +117,8 @@ func main() {
 			fmt.Fprintf(os.Stderr, "   VIOL x%d %s site=%s %s\n", v.Count, v.ID, v.Site, v.Detail)
 		}
 	}
-	doc := map[string]interface{}{"load_s": loadT.Seconds(), "results": results}
+	doc := map[string]interface{}{"load_s": loadT.Seconds(), "results": results,
+		"mutation_sites_static": eng.staticMutationSites(), "mutation_sites_executed": eng.executedMutationSites()}
 	b, _ := json.MarshalIndent(doc, "", " ")
 	if *out != "" {
 		os.WriteFile(*out, b, 0o644)
